@@ -1,0 +1,64 @@
+//go:build verif
+
+package harfbuzz
+
+import (
+	"runtime"
+	"unicode"
+
+	"github.com/go-text/typesetting/language"
+)
+
+// Verification hooks (property C20): read-only access to the unexported Unicode tables and lookups
+// of the shaper.  Add-only file; compiled only with -tags verif.
+
+// VerifC20SourceFile returns the path of this file as compiled, which locates the sources of the
+// package (the range dispatch of indicGetCategories / getUSECategory is code, not data).
+func VerifC20SourceFile() string {
+	_, f, _, _ := runtime.Caller(0)
+	return f
+}
+
+// VerifC20GeneralCategories returns generalCategories (index = generalCategory value, nil for unassigned).
+func VerifC20GeneralCategories() []*unicode.RangeTable { return generalCategories[:] }
+
+// VerifC20GeneralCategory is uni.generalCategory.
+func VerifC20GeneralCategory(ch rune) uint8 { return uint8(uni.generalCategory(ch)) }
+
+// VerifC20ArabicJoinings returns a copy of arabicJoinings.
+func VerifC20ArabicJoinings() map[rune]byte {
+	out := make(map[rune]byte, len(arabicJoinings))
+	for k, v := range arabicJoinings {
+		out[k] = byte(v)
+	}
+	return out
+}
+
+// VerifC20GetJoiningType is getJoiningType.
+func VerifC20GetJoiningType(u rune, genCat uint8) uint8 {
+	return getJoiningType(u, generalCategory(genCat))
+}
+
+// VerifC20HasArabicJoining is hasArabicJoining.
+func VerifC20HasArabicJoining(s language.Script) bool { return hasArabicJoining(s) }
+
+// VerifC20IndicTable returns indicTable.
+func VerifC20IndicTable() []uint16 { return indicTable[:] }
+
+// VerifC20IndicGetCategories is indicGetCategories.
+func VerifC20IndicGetCategories(u rune) uint16 { return indicGetCategories(u) }
+
+// VerifC20USETable returns useTable.
+func VerifC20USETable() []uint8 { return useTable[:] }
+
+// VerifC20GetUSECategory is getUSECategory.
+func VerifC20GetUSECategory(u rune) uint8 { return getUSECategory(u) }
+
+// VerifC20ModifiedCombiningClassTable returns modifiedCombiningClass.
+func VerifC20ModifiedCombiningClassTable() [256]uint8 { return modifiedCombiningClass }
+
+// VerifC20ModifiedCombiningClass is uni.modifiedCombiningClass.
+func VerifC20ModifiedCombiningClass(u rune) uint8 { return uni.modifiedCombiningClass(u) }
+
+// VerifC20IsExtendedPictographic is uni.isExtendedPictographic.
+func VerifC20IsExtendedPictographic(ch rune) bool { return uni.isExtendedPictographic(ch) }
